@@ -9,6 +9,8 @@
 #include <poll.h>
 #include <signal.h>
 #include <sys/mman.h>
+#include <sys/prctl.h>
+#include <sys/resource.h>
 #include <sys/stat.h>
 #include <sys/time.h>
 #include <sys/wait.h>
@@ -74,6 +76,11 @@ static void finalize_registry() {
 
 // ================================================================================================ worker side
 static int worker_main(int shm_fd, int slot_idx, uint64_t seed, bool thorough) {
+  // backstops independent of the parent's watchdog: die with the parent, and never burn more than 15 CPU minutes
+  // (a worker is recycled after 3000 cases, far less than that)
+  prctl(PR_SET_PDEATHSIG, SIGKILL);
+  struct rlimit rl = {900, 900};
+  setrlimit(RLIMIT_CPU, &rl);
   Shared* sh = nullptr;
   if (shm_fd >= 0) {
     void* p = mmap(nullptr, sizeof(Shared), PROT_READ | PROT_WRITE, MAP_SHARED, shm_fd, 0);
@@ -170,7 +177,7 @@ struct Options {
   std::vector<std::string> known;  // "class|site|description"
 };
 
-static double g_cpu_bound = 15.0;  // CPU seconds one evaluation may take before it is declared hung
+static double g_cpu_bound = 20.0;  // CPU seconds one evaluation may take before it is declared hung
 static const Outcome* find_sig(const std::vector<Outcome>& v, const std::string& sig) {
   for (auto& o : v)
     if (o.sig() == sig) return &o;
@@ -996,11 +1003,28 @@ static int run_batch() {
            (unsigned long long)found[best].index);
     found_order.assign(1, best);
   }
-  for (auto& sig : found_order) {
+  for (std::string sig : found_order) {
     Found& f = found[sig];
     Prober pr;
     std::vector<Outcome> a = pr.eval(f.spec, true);
     std::vector<Outcome> b = pr.eval(f.spec, true);
+    if (sig == "hang|watchdog" && !find_sig(a, sig) && !a.empty() && !b.empty()) {
+      // the CPU-time watchdog is the detector of last resort; when the fresh runs agree on a sharper diagnosis of the
+      // same non-termination (spin / runaway detector got there first), that diagnosis is the finding
+      const Outcome* sharper = nullptr;
+      for (auto& o : a)
+        if (o.cls == "hang" && find_sig(b, o.sig())) sharper = &o;
+      if (sharper) {
+        sig = sharper->sig();
+        bool is_known = false;
+        for (auto& k : known)
+          if (k.cls == sharper->cls && k.site == sharper->site) {
+            ++k.count;
+            is_known = true;
+          }
+        if (is_known) continue;
+      }
+    }
     if (!find_sig(a, sig) || !find_sig(b, sig)) {
       printf("INFRA nondeterministic: case %llu gave %s in the batch but [%s] / [%s] in fresh processes (spec: %.300s)\n", (unsigned long long)f.index,
              sig.c_str(), sigs_of(a).c_str(), sigs_of(b).c_str(), spec_to_text(f.spec).c_str());
